@@ -30,3 +30,16 @@ Theorem mmul_transfer a b : mmul Rops (mQ2R a) (mQ2R b) = mQ2R (mmul Qops a b).
 Proof. apply list_list_R_map_inv. apply (mmul_R Q R QR Qops Rops ops_QR); apply list_list_R_map. Qed.
 Theorem transpose_transfer a : transpose Rops (mQ2R a) = mQ2R (transpose Qops a).
 Proof. apply list_list_R_map_inv. apply (transpose_R Q R QR Qops Rops ops_QR); apply list_list_R_map. Qed.
+
+Parametricity Recursive compute_params_surface.
+Definition pairQ2R (x : list Q * list Q) : list R * list R := (map Q2R (fst x), map Q2R (snd x)).
+Theorem params_surface_transfer su sv a b :
+  compute_params_surface Rops su sv (mQ2R a) (mQ2R b) = res_map pairQ2R (compute_params_surface Qops su sv a b).
+Proof.
+  pose proof (compute_params_surface_R Q R QR Qops Rops ops_QR su su (nat_R_refl su) sv sv (nat_R_refl sv)
+                a (mQ2R a) (list_list_R_map a) b (mQ2R b) (list_list_R_map b)) as H.
+  destruct H as [x y H| |]; cbn [res_map]; try reflexivity.
+  destruct H as [x1 y1 H1 x2 y2 H2]. apply list_R_map_inv in H1, H2. unfold pairQ2R. cbn [fst snd]. rewrite H1, H2. reflexivity.
+Qed.
+Lemma nth_Q2R (l : list Q) i : nth i (map Q2R l) 0%R = Q2R (nth i l 0%Q).
+Proof. rewrite <- Q2R_0. apply map_nth. Qed.
